@@ -81,7 +81,12 @@ FORBIDDEN_PREFIXES = (
     'std::mem::zeroed', 'std::mem::uninitialized', 'std::mem::MaybeUninit', 'std::mem::ManuallyDrop',
     'std::boxed::Box::leak', 'std::any', 'core::cell', 'core::sync', 'core::ptr', 'core::any', 'core::hash',
     'std::alloc::System', 'rand',
+    # the address of a value and the caller's source location are not part of a view's logical value
+    'std::panic::Location', 'core::panic::Location', 'std::fmt::Pointer', 'core::fmt::Pointer', 'std::fmt::pointer_fmt_inner',
+    'core::fmt::pointer_fmt_inner', 'std::backtrace', 'std::intrinsics::caller_location', 'std::intrinsics::type_id',
+    'std::intrinsics::type_name', 'std::mem::size_of_val', 'std::mem::align_of_val',
 )
+FORBIDDEN_SUBSTRINGS = ('new_pointer', 'Location::caller', 'fmt::Pointer')
 # methods whose result is not a function of the container's logical value (not preserved by Clone,
 # allocator dependent) or which leak
 FORBIDDEN_METHODS = {
@@ -105,6 +110,9 @@ def callee_verdict(krate, name, resolved):
         for p in FORBIDDEN_PREFIXES:
             if n.startswith(p):
                 return False, 'impure or sharing callee (%s)' % n
+        for p in FORBIDDEN_SUBSTRINGS:
+            if p in n:
+                return False, 'callee observes an address or the caller location (%s)' % n
     if krate in ALLOWED_CRATES:
         return True, ''
     if name == '<indirect>':
@@ -154,6 +162,9 @@ def run_c17(F, R):
     for u in F.unsafes:
         if any(m.startswith('derive macro:') for m in u.get('mac', [])):
             continue
+        if any(m.startswith('desugar:FormatLiteral') or m in ('macro:format_args', 'macro:$crate::__export::format_args', 'macro:$crate::format_args')
+               for m in u.get('mac', [])):
+            continue    # compiler-generated `unsafe { Arguments::new(..) }` inside format_args!: not user-written unsafe
         R.violation('T3-unsafe', '%s:%s' % (u['what'], u.get('fn', '')), '%s in non-test code' % u['what'],
                     '%s:%d' % (u['where'][0], u['where'][1]))
     for fm in F.foreign_mods:
@@ -181,6 +192,31 @@ def run_c17(F, R):
     R.ob('T4-callees', 'crate', True, '%d call terminators in %d MIR bodies, all callees in the pure allow-list or crate-local' % (ncalls, len(F.raw['mir'])))
     R.extra['mir_bodies'] = len(F.raw['mir'])
     R.extra['call_sites'] = ncalls
+    # T7: no address ever becomes a value: no expression of raw-pointer type, no pointer/reference/fn -> integer cast.
+    # (safe code cannot dereference a raw pointer, so the only use of one is to observe an address, which Clone and moves
+    # do not preserve)
+    from .sir import walk as _walk, loc as _loc
+    nexpr = 0
+    ncast = 0
+    for f in F.fns:
+        if f.derived:
+            continue
+        for n in _walk(f.raw['body']):
+            if not isinstance(n, dict):
+                continue
+            nexpr += 1
+            ty = str(n.get('ty', ''))
+            if ty.startswith(('*const ', '*mut ')):
+                R.violation('T7-addresses', '%s:raw-pointer-expr' % canon(f.defpath),
+                            'expression of raw-pointer type %s: an address is being observed' % ty, _loc(n))
+            if n.get('k') == 'cast':
+                ncast += 1
+                sty = str(n['e'].get('ty', ''))
+                if sty.startswith(('*const ', '*mut ', '&', 'fn(', 'for<', 'unsafe fn', 'extern ')) or ' {' in sty or sty.startswith('fn '):
+                    R.violation('T7-addresses', '%s:pointer-cast' % canon(f.defpath),
+                                'cast of %s to %s: an address (of a value or a function) becomes data' % (sty, n.get('ty')), _loc(n))
+    R.ob('T7-addresses', 'crate', True, '%d expressions (%d casts) in %d local bodies inspected: none has raw-pointer type and no cast starts from a pointer, reference or fn item' % (nexpr, ncast, len(F.fns)))
+    R.extra['expressions_inspected'] = nexpr
     # T5: trait shape
     tr = F.traits.get('View')
     if not tr:
